@@ -346,6 +346,8 @@ class RefCache:
         # only settings that change observable behaviour of later calls are modelled
         if key == 'cull_limit':
             self.cull_limit = value
+        elif key == 'disk_min_file_size':
+            self.T = value               # applies to values stored from now on
         return value
 
     def op_stats(self, enable=True, reset=False):
